@@ -1322,7 +1322,86 @@ def check_feeds_fed(u):
     return obligations, failures, samples
 
 
-CHECKS = {"feeds_fed": check_feeds_fed, "exists_binding": check_exists_binding, "seqmerge_params": check_seqmerge_params, "chunker_ranges": check_chunker_ranges, "persist_before_publish": check_persist_before_publish, "schema_reload": check_schema_reload, "cluster_id_fresh": check_cluster_id_fresh, "schema_ddl": check_schema_ddl, "schema_atomic": check_schema_atomic, "seq_range_guard": check_seq_range_guard, "exits_covered": check_exits_covered, "sub_lag_stops": check_sub_lag_stops, "single_snapshot": check_single_snapshot, "offer_loops": check_offer_loops, "speedy_prealloc": check_speedy_prealloc, "from_conn": check_from_conn, "sql_actor_scoping": check_sql_actor_scoping, "local_write_sequence": check_local_write_sequence, "insert_local_changes": check_insert_local_changes, "authz_layer": check_authz_layer, "readonly_guard": check_readonly_guard, "read_pool": check_read_pool}
+CHANGE_FIELDS = ["table", "pk", "cid", "val", "col_version", "db_version", "seq", "site_id", "cl"]
+
+
+def _select_cols(sql):
+    mm = re.search(r"SELECT\s+(.*?)\s+FROM\b", sql, re.S | re.I)
+    if not mm:
+        return None
+    cols = []
+    for part in _split_top(mm.group(1)):
+        part = part.strip()
+        am = re.search(r"\bAS\s+(\w+)\s*$", part, re.I)
+        cols.append(am.group(1) if am else part.strip('"').split(".")[-1].strip('"'))
+    return cols
+
+
+def check_row_bindings(u):
+    """C05/C03/C07: rows of `crsql_changes` become `Change` values through row_to_change, which reads columns BY POSITION; the sync server
+    reads (version, last_seq, ts) and (start_seq, end_seq, last_seq, ts) by position too.  Obligations: row_to_change assigns position i
+    to the i-th field of the fixed column order, every query whose rows are mapped with row_to_change selects those columns in that
+    order, and every positional read in handle_need reads the column carrying that name."""
+    from .lex import iter_string_literals
+    obligations, failures, samples = [], [], []
+    # (1) row_to_change
+    f1 = "crates/klukai-types/src/change.rs"
+    src, msk, o, c = _fn_body(f1, "row_to_change")
+    name = "row-to-change-reads-each-field-from-its-own-column"
+    obligations.append(name)
+    got = re.findall(r"(\w+)\s*:\s*row\s*\.\s*get\s*\(\s*(\d+)\s*\)", msk[o:c])
+    if len(got) < len(CHANGE_FIELDS):
+        raise LostAnchor("row_to_change: field bindings not recognised")
+    for fld, idx in got:
+        if fld in CHANGE_FIELDS and CHANGE_FIELDS.index(fld) != int(idx):
+            failures.append((name, _line(src, o), "field `%s` is read from column #%s, the queries put it at #%d" % (fld, idx, CHANGE_FIELDS.index(fld)), f1))
+    # (2) every query mapped with row_to_change
+    for file in u["files"]:
+        whole = open(os.path.join(REPO, file)).read()
+        wm = mask(whole)
+        lits = [(a, t) for (a, t) in iter_string_literals(whole) if re.search(r"\bSELECT\b", t)]
+        for m in re.finditer(r"\brow_to_change\b", wm):
+            if re.match(r"row_to_change\s*\(\s*row\s*:", wm[m.start():]) or re.search(r"fn\s+$", wm[max(0, m.start() - 4):m.start()]):
+                continue
+            prev = [(a, t) for (a, t) in lits if a < m.start()]
+            if not prev or m.start() - prev[-1][0] > 1500:
+                continue
+            a, t = prev[-1]
+            cols = _select_cols(t)
+            nm = "query-selects-the-change-columns-in-row-to-change-order:%s:%d" % (os.path.basename(file), len([x for x in obligations if os.path.basename(file) in x]) + 1)
+            obligations.append(nm)
+            if cols is None or cols[:len(CHANGE_FIELDS)] != CHANGE_FIELDS:
+                failures.append((nm, _line(whole, a), "columns %s are mapped positionally by row_to_change, which expects %s" % (cols, CHANGE_FIELDS), file))
+            samples.append("%s:%d SELECT %s -> row_to_change" % (file, _line(whole, a), ", ".join(cols or [])))
+    # (3) positional reads in handle_need
+    f3 = "crates/klukai-agent/src/api/peer/mod.rs"
+    src, msk, o, c = _fn_body(f3, "handle_need")
+    lits = [(a, t) for (a, t) in iter_string_literals(src) if o <= a < c and re.search(r"\bSELECT\b", t)]
+    alias = {"version": "db_version"}
+    n3 = "sync-server-reads-version-last-seq-ts-from-their-columns"
+    obligations.append(n3)
+    for m in re.finditer(r"\blet\s+(\w+)\s*:\s*\w+\s*=\s*row\s*\.\s*get\s*\(\s*(\d+)\s*\)", msk[o:c]):
+        var, idx = m.group(1), int(m.group(2))
+        # the query this row belongs to: the version-level query prepared at the top of handle_need (GROUP BY db_version)
+        q = [t for (a, t) in lits if "GROUP BY db_version" in t]
+        if not q:
+            raise LostAnchor("handle_need: version-level query not found")
+        cols = _select_cols(q[0])
+        if idx >= len(cols) or cols[idx] != alias.get(var, var):
+            failures.append((n3, _line(src, o + m.start()), "`%s` is read from column #%d (`%s`) of `SELECT %s`" % (var, idx, cols[idx] if idx < len(cols) else "?", ", ".join(cols)), f3))
+    n4 = "sync-server-reads-buffered-ranges-from-their-columns"
+    obligations.append(n4)
+    for m in re.finditer(r"\|row\|\s*Ok\(\(\s*row\.get\((\d+)\)\?\s*\.\.=\s*row\.get\((\d+)\)\?\s*,\s*row\.get\((\d+)\)\?\s*,\s*row\.get\((\d+)\)\?\s*\)\)", msk[o:c]):
+        prev = [(a, t) for (a, t) in lits if a < o + m.start()]
+        cols = _select_cols(prev[-1][1]) if prev else None
+        idxs = [int(x) for x in m.groups()]
+        want = ["start_seq", "end_seq", "last_seq", "ts"]
+        if cols is None or [cols[i] if i < len(cols) else "?" for i in idxs] != want:
+            failures.append((n4, _line(src, o + m.start()), "(range start, range end, last_seq, ts) are read from columns %s of `SELECT %s`" % (idxs, ", ".join(cols or [])), f3))
+    return obligations, failures, samples
+
+
+CHECKS = {"row_bindings": check_row_bindings, "feeds_fed": check_feeds_fed, "exists_binding": check_exists_binding, "seqmerge_params": check_seqmerge_params, "chunker_ranges": check_chunker_ranges, "persist_before_publish": check_persist_before_publish, "schema_reload": check_schema_reload, "cluster_id_fresh": check_cluster_id_fresh, "schema_ddl": check_schema_ddl, "schema_atomic": check_schema_atomic, "seq_range_guard": check_seq_range_guard, "exits_covered": check_exits_covered, "sub_lag_stops": check_sub_lag_stops, "single_snapshot": check_single_snapshot, "offer_loops": check_offer_loops, "speedy_prealloc": check_speedy_prealloc, "from_conn": check_from_conn, "sql_actor_scoping": check_sql_actor_scoping, "local_write_sequence": check_local_write_sequence, "insert_local_changes": check_insert_local_changes, "authz_layer": check_authz_layer, "readonly_guard": check_readonly_guard, "read_pool": check_read_pool}
 
 
 def run_unit(prop, u, tier, ctx, here):
